@@ -44,9 +44,11 @@ CLAIMED = {
    technique="Lean 4 proof over a hand-written state-machine model + differential correspondence with the Go implementation", design="§4 C19"),
  "C16": dict(
    text="Lean proof (mutual structural recursion over the type language, no depth bound) that the model of Type.Equal is reflexive, symmetric and transitive, that identified "
-        "structs are compared by name only, that pointers equal only pointers, and that equal <-> structural identity GIVEN injectivity of the type printer (which "
-        "PointerType.Equal relies on; stated as an explicit hypothesis StrInj, validated on the implementation by an injectivity oracle). Tied by Equal/String correspondence "
-        "on generated pairs incl. real self-referential named structs, exhaustive depth<=2 universe in thorough, and print->parse oracles.",
+        "structs are compared by name only, that pointers equal only pointers, and — unconditionally — that Equal holds exactly for structurally identical types "
+        "(equal_iff_eq) and exactly when the printed texts coincide (equal_iff_same_text). The injectivity of the type printer that PointerType.Equal relies on is a theorem "
+        "(printer_injective), obtained from a reader of printed types proved to invert the printer on every type (print_parse_roundtrip). Tied by Equal/String correspondence "
+        "on generated pairs incl. real self-referential named structs, exhaustive depth<=2 universe in thorough, print->parse oracles, and the reader compared with the real "
+        "parser on printed and mutated type texts.",
    note="Lean kernel + propext/Quot.sound; model LlirModel/Types.lean hand-written in the property's universe (names unique, only structs named); StrInj is assumed, not proved.",
    technique="Lean 4 proof over a hand-written model + differential correspondence with the Go implementation", design="§4 C16"),
  "C06": dict(
